@@ -1,6 +1,6 @@
 #!/bin/bash
 # seedrun.sh <patch> <tier> <ID...> : apply a seeded change to /repo, run the given checks, revert.
-patch=$1; tier=$2; shift 2
+patch=$(realpath $1); tier=$2; shift 2
 cd /verif
 [ -z "$(git -C /repo status --porcelain)" ] || { echo "/repo not clean"; exit 2; }
 git -C /repo apply $patch || exit 2
